@@ -369,6 +369,11 @@ def check(ctx):
             ctx.undecided("R-WIDTH/_data", ci.qual, _where(ci), "no store site found for fixed-width type", key="sites")
     _address_uri(ctx, repo)
 
+    # ---- clause 3b: decoding dispatches (vendor, code) to that class (registry writer/reader, shared with C02 clause 4) ----
+    ctx.clause = "3b-dispatch"
+    from .c02 import _registry
+    _registry(ctx, repo)
+
     # ---- clause 9: published identity -------------------------------------------------
     ctx.clause = "9-published-identity"
     _docs(ctx, repo, rows)
